@@ -17,6 +17,9 @@ UNITS = {
         {"name": "C04_INP", "test": "TestC04_INP", "quick": 3000, "thorough": 60000, "shards": 12},
         {"name": "C04_BIN", "test": "TestC04_BIN", "quick": 300, "thorough": 6000, "shards": 4, "bin": True},
     ],
+    "C05": [
+        {"name": "C05_BIN", "test": "TestC05_BIN", "quick": 200, "thorough": 4000, "shards": 8, "bin": True},
+    ],
     "C06": [
         {"name": "C06_INP", "test": "TestC06_INP", "quick": 1500, "thorough": 20000, "shards": 12},
         {"name": "C06_BIN", "test": "TestC06_BIN", "quick": 200, "thorough": 2000, "shards": 4, "bin": True},
@@ -78,6 +81,8 @@ UNITS = {
 }
 
 RULES = {
+    "C05": "case = (startable subset of {openid, kerberos, local, ntlm} other than openid alone as a real instance with a fake authentication service that logs every verdict and delegates NTLM to the repository's verifier; 1-8 requests: method, transport, one of 32 Authorization header kinds incl. complete NTLM exchanges on one or two connections built by the harness's own NTLMv2 code, user, host probe); "
+           "non-trivial = the header names a scheme or carries credentials",
     "C18": "case = (authentication subset incl. the 'basic' alias, TLS mode, host-selection mode, query-token key, number of hosts, keytab, token-auth true/false/default, each delivered by file, by RDPGW_ environment variable in the documented spelling, or both with the file carrying a conflicting value); "
            "plus key-length assignments (absent, 0, 1, 31, 32) for the five keys, and pairs of real instances sharing a short key; every configuration counts as non-trivial (the refuse/accept table has no trivial region), distinct = distinct case JSON",
     "C12": "case = (real instance: selection mode, host list with/without placeholder, domain splitting, user-name template, no-username, user tokens; 1-6 requests: session none/new/failed-login/authenticated as user u with sub =/!= user name, host parameter absent/listed/unlisted/valid or forged/expired/wrong-issuer/wrong-key query token, login address, download address incl. X-Forwarded-For, replay transport); "
